@@ -219,43 +219,122 @@ def rule_r1(ctx):
               how="single unconditional capture as first statement; returned unchanged")
 
 
+def _saved_state(en: FuncInfo, ex: FuncInfo):
+    """How __enter__ hands what it has to undo over to __exit__.
+
+    Returns (carriers, exit_names): carriers = {field: (kind, holds)} with kind 'slot' (`self.F = v`) or 'stack' (`self.F.append(v)`
+    paired with `self.F.pop()` in __exit__) and holds ⊆ {'table', 'previous'} (the table returned by wrap_ir_classes, the journal that
+    was current before); exit_names = {name or `self.F`: holds} for the expressions of __exit__ that read a carrier back."""
+    me = en.params[0]
+    holds: dict[str, set[str]] = {}
+    # locals of __enter__: what they hold
+    for n in own_nodes(en.node):
+        if isinstance(n, ast.Assign) and len(n.targets) == 1 and isinstance(n.targets[0], ast.Name):
+            v = n.value
+            if isinstance(v, ast.Call) and (dotted_of(v.func) or "").endswith("wrap_ir_classes"):
+                holds.setdefault(n.targets[0].id, set()).add("table")
+            if isinstance(v, ast.Name) and v.id == "_current_journal":
+                holds.setdefault(n.targets[0].id, set()).add("previous")
+
+    def what(e) -> set[str]:
+        out: set[str] = set()
+        for x in ast.walk(e):
+            if isinstance(x, ast.Call) and (dotted_of(x.func) or "").endswith("wrap_ir_classes"):
+                out.add("table")
+            if isinstance(x, ast.Name) and x.id == "_current_journal":
+                out.add("previous")
+            if isinstance(x, ast.Name) and x.id in holds:
+                out |= holds[x.id]
+        return out
+
+    carriers: dict[str, tuple[str, set[str]]] = {}
+    for n in own_nodes(en.node):
+        if isinstance(n, ast.Assign) and len(n.targets) == 1 and isinstance(n.targets[0], ast.Attribute) and norm(n.targets[0].value) == me:
+            h = what(n.value)
+            if h:
+                carriers[n.targets[0].attr] = ("slot", h)
+        if isinstance(n, ast.Call) and isinstance(n.func, ast.Attribute) and n.func.attr == "append" and isinstance(n.func.value, ast.Attribute) \
+                and norm(n.func.value.value) == me and n.args:
+            h = what(n.args[0])
+            if h:
+                carriers[n.func.value.attr] = ("stack", h)
+    me2 = ex.params[0]
+    exit_names: dict[str, set[str]] = {}
+    for f_, (kind, h) in carriers.items():
+        if kind == "slot":
+            exit_names[f"{me2}.{f_}"] = set(h)
+    for n in own_nodes(ex.node):
+        if isinstance(n, ast.Assign) and isinstance(n.value, ast.Call) and isinstance(n.value.func, ast.Attribute) and n.value.func.attr == "pop" \
+                and isinstance(n.value.func.value, ast.Attribute) and norm(n.value.func.value.value) == me2 and not n.value.args:
+            fld = n.value.func.value.attr
+            if fld in carriers and carriers[fld][0] == "stack":
+                for t in n.targets:
+                    for x in ast.walk(t):
+                        if isinstance(x, ast.Name):
+                            exit_names[x.id] = set(carriers[fld][1])
+    # locals of __exit__ copied from what was read back (`a, b = self.A, self.B` / `a = self.A`)
+    for _ in range(2):
+        for n in own_nodes(ex.node):
+            if not isinstance(n, ast.Assign) or len(n.targets) != 1:
+                continue
+            t, v = n.targets[0], n.value
+            pairs = list(zip(t.elts, v.elts)) if isinstance(t, ast.Tuple) and isinstance(v, ast.Tuple) and len(t.elts) == len(v.elts) else [(t, v)]
+            for tt, vv in pairs:
+                if isinstance(tt, ast.Name) and norm(vv) in exit_names:
+                    exit_names.setdefault(tt.id, set()).update(exit_names[norm(vv)])
+    return carriers, exit_names
+
+
 def rule_r2(ctx):
     repo = ctx.repo
     jc = repo.cls(f"{JR}:Journal")
     ex, en = jc.methods.get("__exit__"), jc.methods.get("__enter__")
     ctx.require(ex is not None and en is not None, "Journal.__enter__/__exit__ not found")
+    carriers, exit_names = _saved_state(en, ex)
+    ctx.tables["journal state handed from __enter__ to __exit__"] = {k: [v[0], sorted(v[1])] for k, v in carriers.items()}
     cfg = CFG(ex.node)
     calls = [c for c in calls_in(ex) if (dotted_of(c.func) or "").endswith("restore_ir_classes")]
     ok = False
     if calls:
         n = cfg.nodes_containing(calls[0])
+        arg = norm(calls[0].args[0]) if calls[0].args else ""
         ok = bool(n) and cfg.dominates(n[0], cfg.exit) and n[0].kind == "stmt" and \
-            getattr(getattr(calls[0], "_parent", None), "_parent", None) is ex.node and \
-            norm(calls[0].args[0]) == "self._original_methods" if calls[0].args else False
-    ctx.check("R2", "__exit__: restore_ir_classes(self._original_methods) on every path", ok, ex, ex.node,
-              "leaving the journal does not always restore the IR classes (guarded or missing restore call)",
-              how="call is a top-level statement dominating the exit; not guarded by the exception arguments")
+            getattr(getattr(calls[0], "_parent", None), "_parent", None) is ex.node and "table" in exit_names.get(arg, ())
+    ctx.check("R2", "__exit__: restore_ir_classes(<the table captured on entry>) on every path", ok, ex, ex.node,
+              "leaving the journal does not always restore the IR classes (guarded or missing restore call, or not the table captured by this entry)",
+              how="call is a top-level statement dominating the exit; its argument reads back what __enter__ stored from wrap_ir_classes(self)")
     prev = [n for n in own_nodes(ex.node) if isinstance(n, ast.Assign) and norm(n.targets[0]) == "_current_journal"]
-    ok = bool(prev) and norm(prev[0].value) == "self._previous_journal" and getattr(prev[0], "_parent", None) is ex.node
+    ok = bool(prev) and "previous" in exit_names.get(norm(prev[0].value), ()) and getattr(prev[0], "_parent", None) is ex.node
     ok = ok and not any(isinstance(n, (ast.Try, ast.Return)) for n in own_nodes(ex.node))
     ctx.check("R2", "__exit__: previous current journal restored unconditionally", ok, ex, ex.node,
               "the previous current journal is not restored on every path",
-              how="top-level assignment from self._previous_journal; no early return")
-    # __enter__: save previous before overwriting; keep the captured table
-    body = [norm(s) for s in en.node.body if not isinstance(s, ast.Global)]
-    try:
-        i_save = body.index("self._previous_journal = _current_journal")
-        i_set = body.index("_current_journal = self")
-        i_wrap = next(i for i, s in enumerate(body) if s.startswith("self._original_methods = ") and "wrap_ir_classes(self)" in s)
-        ok = i_save < i_set
-    except (ValueError, StopIteration):
-        ok = False
-    ctx.check("R2", "__enter__: saves previous journal, stores the captured table", ok, en, en.node,
+              how="top-level assignment from the journal saved on entry; no early return")
+    # __enter__: the previous journal is read before it is replaced; the captured table is kept
+    cfg_e = CFG(en.node)
+    reads = [n for n in own_nodes(en.node) if isinstance(n, (ast.Assign, ast.Expr)) and any(isinstance(x, ast.Name) and x.id == "_current_journal" and isinstance(x.ctx, ast.Load)
+                                                                                               for x in ast.walk(n))]
+    sets = [n for n in own_nodes(en.node) if isinstance(n, ast.Assign) and norm(n.targets[0]) == "_current_journal"]
+    ok = bool(reads) and len(sets) == 1 and norm(sets[0].value) == en.params[0]
+    if ok:
+        rn, sn = cfg_e.node_of(reads[0]), cfg_e.node_of(sets[0])
+        ok = bool(rn and sn) and cfg_e.dominates(rn[0], sn[0]) and rn[0].id != sn[0].id
+    ok = ok and any("table" in h for _k, h in carriers.values()) and any("previous" in h for _k, h in carriers.values())
+    ctx.check("R2", "__enter__: saves previous journal, stores the captured table", bool(ok), en, en.node,
               "__enter__ does not save the previous journal before replacing it / loses the captured table",
-              how="statement order in __enter__")
+              how="the read of _current_journal dominates its replacement; both saved values reach a field of the journal")
     glob = [n for n in ast.walk(ex.node) if isinstance(n, ast.Global)] and [n for n in ast.walk(en.node) if isinstance(n, ast.Global)]
     ctx.check("R2", "enter/exit declare _current_journal global", bool(glob), en, en.node,
               "_current_journal assignment would be local", nontrivial=False)
+    # re-entry: `with j: … with j:` is proper nesting; what one entry saved must survive a nested entry of the same object
+    refuses = any(isinstance(n, ast.Raise) for n in own_nodes(en.node))
+    for fld, (kind, h) in sorted(carriers.items()):
+        ok = kind == "stack" or refuses
+        ctx.check("R2", f"__enter__: `{fld}` ({'/'.join(sorted(h))}) survives a nested entry of the same journal", ok, en, en.node,
+                  f"`self.{fld}` is a single slot overwritten by every entry: when the same Journal object is entered again inside its own `with` block, the inner entry "
+                  f"replaces what the outer one saved ({'the table of original methods' if 'table' in h else 'the previous journal'}), so the outer exit restores the inner "
+                  "entry's view - the IR classes stay patched (and the current journal stays set) after the outermost block is left",
+                  how="state handed from __enter__ to __exit__ is pushed on a per-journal stack and popped, or __enter__ refuses a second entry",
+                  construct=f"single slot {fld} shared by nested entries")
 
 
 def _wrapper_of(factory: FuncInfo) -> FuncInfo | None:
